@@ -380,16 +380,28 @@ impl Corp for Sv1Narrow {
 
 // ---- bounded vectors (C08)
 use candid::types::bounded_vec::BoundedVec;
-pub trait Sized1 { const UNIT: &'static str; }
-impl Sized1 for u64 { const UNIT: &'static str = "fix"; }
-impl Sized1 for u8 { const UNIT: &'static str = "fix"; }
-impl Sized1 for String { const UNIT: &'static str = "text"; }
+pub trait Sized1 { const UNIT: &'static str; fn small(g: &mut StdRng, max: usize) -> Self; fn size(&self) -> usize; }
+impl Sized1 for u64 { const UNIT: &'static str = "fix"; fn small(g: &mut StdRng, _m: usize) -> Self { u64::gen(g, 0) } fn size(&self) -> usize { 8 } }
+impl Sized1 for u8 { const UNIT: &'static str = "fix"; fn small(g: &mut StdRng, _m: usize) -> Self { g.gen() } fn size(&self) -> usize { 1 } }
+impl Sized1 for String { const UNIT: &'static str = "text"; fn small(g: &mut StdRng, m: usize) -> Self { let n = g.gen_range(0..=m.min(6)); (0..n).map(|_| (b'a' + g.gen_range(0..26)) as char).collect() } fn size(&self) -> usize { self.len() } }
 macro_rules! bv {
     ($l:expr, $s:expr, $e:expr, $t:ty) => {
         impl Corp for BoundedVec<{ $l }, { $s }, { $e }, $t> {
             fn decl(d: &mut Decl) -> String { let a = <$t>::decl(d); d.node(json!({"k": "vec", "a": a})) }
             fn absv(&self) -> Value { json!({"k": "vec", "vs": self.get().iter().map(|x| x.absv()).collect::<Vec<_>>()}) }
-            fn gen(g: &mut StdRng, depth: u32) -> Self { let n = *[0usize, 1, 2, 3, 4, 5, 6].choose(g).unwrap(); BoundedVec::new((0..n).map(|_| <$t>::gen(g, depth)).collect()) }
+            /// values within the limits (a value beyond them cannot be decoded at this type by design)
+            fn gen(g: &mut StdRng, _depth: u32) -> Self {
+                let n = g.gen_range(0..=($l as usize).min(6));
+                let mut v: Vec<$t> = vec![]; let mut total = 0usize;
+                for _ in 0..n {
+                    let room = ($s as usize).saturating_sub(total).min($e as usize);
+                    let x = <$t as Sized1>::small(g, room);
+                    if x.size() > room { break; }
+                    total += x.size();
+                    v.push(x);
+                }
+                BoundedVec::new(v)
+            }
             fn same(&self, o: &Self) -> bool { self.get().len() == o.get().len() && self.get().iter().zip(o.get().iter()).all(|(a, b)| a.same(b)) }
             fn bound() -> Value { let f = |x: usize| if x == usize::MAX { -1i64 } else { x as i64 }; json!({"l": f($l), "s": f($s), "e": f($e), "unit": <$t as Sized1>::UNIT}) }
         }
